@@ -42,8 +42,8 @@ ENGINES = {
     'heap': {
         'dir': 'sim/heap',
         'common': [('heap_main.cpp', 'heap_main.o', ['-std=c++17', '-O1', '-pthread'])],
-        'avel_tus': [('heap_ops.cpp', ['-fno-builtin-malloc', '-fno-builtin-free', '-fno-builtin-calloc', '-fno-builtin-realloc',
-                                       '-fno-builtin-aligned_alloc', '-fno-builtin-posix_memalign'])],
+        'avel_tus': [('heap_ops.cpp', ['-DHEAP_PART=%d' % k, '-fno-builtin-malloc', '-fno-builtin-free', '-fno-builtin-calloc', '-fno-builtin-realloc',
+                                       '-fno-builtin-aligned_alloc', '-fno-builtin-posix_memalign'], 'heap_ops_%d.o' % k) for k in range(6)],
         'link': ['-pthread', '-Wl,--wrap=malloc,--wrap=free,--wrap=calloc,--wrap=realloc,--wrap=posix_memalign,--wrap=aligned_alloc'],
         'configs': C.heap_configs,
         'seeded_runs': {'quick': 200000, 'thorough': 20000000},
@@ -97,14 +97,18 @@ def build_config(engine, cfg, repo, common_objs):
     e = ENGINES[engine]
     outdir = os.path.join(BUILD, engine, cfg['id']); shutil.rmtree(outdir, ignore_errors=True); os.makedirs(outdir)
     srcdir = os.path.join(VERIF, e['dir'])
-    san = ['-fsanitize=address,undefined', '-fno-sanitize-recover=undefined', '-fno-omit-frame-pointer', '-g'] if cfg['san'] else []
+    san = ['-fsanitize=address,undefined', '-fsanitize-trap=undefined', '-fsanitize-recover=address', '-fno-omit-frame-pointer', '-g'] if cfg['san'] else []
     objs, cmds, log = [], [], ''
-    for src, flags in e['avel_tus']:
-        o = os.path.join(outdir, src.replace('.cpp', '.o'))
+    jobs = []
+    for tu in e['avel_tus']:
+        src, flags = tu[0], tu[1]
+        o = os.path.join(outdir, tu[2] if len(tu) > 2 else src.replace('.cpp', '.o'))
         cmd = [cfg['cxx'], '-std=' + cfg['std'], cfg['opt'], '-w', '-I' + os.path.join(repo, 'include'), '-I' + srcdir] + \
               ['-D' + d for d in cfg['defs']] + cfg['flags'] + flags + san + ['-c', os.path.join(srcdir, src), '-o', o]
-        cmds.append(' '.join(cmd))
-        r = sh(cmd)
+        cmds.append(' '.join(cmd)); jobs.append((cmd, o))
+    with cf.ThreadPoolExecutor(max_workers=max(1, len(jobs))) as ex:
+        results = list(ex.map(lambda j: sh(j[0]), jobs))
+    for (cmd, o), r in zip(jobs, results):
         log += r.stdout
         if r.returncode != 0:
             return None, cmds, log
@@ -140,8 +144,8 @@ def parse_lines(text):
 
 
 def run_worker(binp, args, timeout):
-    env = dict(os.environ); env['ASAN_OPTIONS'] = env.get('ASAN_OPTIONS', 'detect_leaks=0:allow_user_segv_handler=1:exitcode=77:handle_segv=0:handle_sigbus=0:handle_sigfpe=0')
-    env['UBSAN_OPTIONS'] = env.get('UBSAN_OPTIONS', 'halt_on_error=1:exitcode=78:print_stacktrace=1')
+    env = dict(os.environ); env['ASAN_OPTIONS'] = env.get('ASAN_OPTIONS', 'detect_leaks=0:allow_user_segv_handler=1:exitcode=77:handle_segv=0:handle_sigbus=0:handle_sigfpe=0:halt_on_error=0:detect_stack_use_after_return=0')
+    env['UBSAN_OPTIONS'] = env.get('UBSAN_OPTIONS', 'halt_on_error=0:print_stacktrace=0')
     try:
         p = subprocess.run([binp] + args, stdout=subprocess.PIPE, stderr=subprocess.PIPE, text=True, timeout=timeout, env=env, errors='replace')
         return p.returncode, p.stdout, p.stderr
@@ -391,6 +395,10 @@ def main():
         ga = run_worker(binp, ['--gen', '--prop', prop, '--tier', args.tier, '--seed', str(args.seed), '--no-sweep', '--count', str(gate_n), '--hashes'], 600)
         gb = [run_worker(binp, ['--gen', '--prop', prop, '--tier', args.tier, '--seed', str(args.seed), '--no-sweep', '--count', str(gate_n), '--hashes',
                                 '--start', str(s), '--stride', '3'], 600) for s in range(3)]
+        dead = [g for g in [ga] + gb if not parse_lines(g[1]).get('Z')]
+        if dead:
+            harness_problems.append('gate worker of %s died (rc=%s): stdout tail %s stderr tail %s' % (c['id'], dead[0][0], dead[0][1][-300:], dead[0][2][-800:]))
+            continue
         ha = dict(parse_lines(ga[1]).get('H', []))
         hb = {}
         for g in gb:
@@ -451,6 +459,7 @@ def main():
             small, tries = shrink(binp, prop, args.tier, v['plan'], sigkey(v), engine)
             rf = exec_plan(binp, prop, args.tier, small)
             vv = rf['violation'] or r1['violation']
+            vv['detail'] = symbolise(binp, vv.get('detail'))
             # the minimised plan may match a known finding more precisely than the raw one
             k = match_known(known, prop, c, vv)
             if k:
@@ -490,6 +499,16 @@ def main():
     if harness_problems:
         return 2
     return 1 if violations_out else 0
+
+
+def symbolise(binp, detail):
+    import re
+    m = re.search(r'text offset (0x[0-9a-f]+)', detail or '')
+    if not m or not binp:
+        return detail
+    r = sh(['llvm-symbolizer-14', '--obj=' + binp, '-f', '-i', '-p', m.group(1)])
+    loc = ' | '.join(l.strip() for l in r.stdout.splitlines() if l.strip())[:600]
+    return detail + ' [' + loc + ']'
 
 
 def write_replay(prop, cfg, plan, v, log, rev, args, kind='plan', **extra):
